@@ -56,7 +56,7 @@ theorem readseg_batch_facts {b : Batch} {rest : List Batch} {c : Nat} (hwf : b.W
     c ≤ b.base + b.lastDelta ∧ (∀ m ∈ b.msgs, m.off ≤ b.base + b.lastDelta) ∧
       (∀ m ∈ batchesMsgs rest, b.base + b.lastDelta < m.off) ∧
       consecutiveFrom (b.base + b.lastDelta + 1) (batchesMsgs rest) := by
-  rw [batchesMsgs_cons, consecutiveFrom_append] at hc
+  rw [batchesMsgs_cons, consecutiveFrom_append_iff] at hc
   obtain ⟨hc1, hc2⟩ := hc
   obtain ⟨hne, -, hlast, -⟩ := hwf
   cases hl : b.msgs.getLast? with
